@@ -28,8 +28,15 @@ import (
 	"mycoverif/simtcp"
 )
 
+// sameLabelEnds: the two ends of a three-router line derive the same one-byte switch label
+// from their addresses, so the router in the middle has to find another label for one of them.
+var sameLabelEnds bool
+
 func genStore(tp *core.Tape, i, n int, universe, secret string, idBase int) config.Store {
 	id := ident.Get(ident.Routable, idBase+i)
+	if sameLabelEnds && i != 1 {
+		id = ident.Get(ident.SameLabel, i/2+idBase/8*2)
+	}
 	st := config.Store{}
 	st.Router.Address = id.Store()
 	st.Router.Universe = universe
@@ -143,6 +150,10 @@ func run(e *core.Env) {
 		secret = "topsecret"
 	}
 	idBase := 8 * tp.Intn(2)
+	sameLabelEnds = n == 3 && tp.Chance(1, 3)
+	if sameLabelEnds {
+		e.Probe("two_peers_of_one_router_derive_the_same_switch_label")
+	}
 	stores := make([]config.Store, n)
 	for i := range stores {
 		stores[i] = genStore(tp, i, n, universe, secret, idBase)
